@@ -32,7 +32,7 @@ def strip_comments(src):
 # ------------------------------------------------------------------------------------------------
 # tiny expression language: integers a b c, boolean atoms p q r, + - unary-, comparisons, ! && ||
 # ------------------------------------------------------------------------------------------------
-TOK = re.compile(r"\s*(?:(\d+)|([A-Za-z_]\w*)|(==|!=|<=|>=|&&|\|\||[-+<>!()~*]))")
+TOK = re.compile(r"\s*(?:(\d+)|([A-Za-z_]\w*)|(==|!=|<=|>=|&&|\|\||[-+<>!()~*?:]))")
 
 
 def tokenize(s):
@@ -74,10 +74,21 @@ class P:
         return v
 
     def parse(self):
-        e = self.lor()
+        e = self.tern()
         if self.peek()[0] != "end":
             raise TranslateError("trailing tokens in %r" % self.text)
         return e
+
+    def tern(self):
+        """conditional expression c ? x : y (right associative)"""
+        c = self.lor()
+        if self.peek() == ("op", "?"):
+            self.eat()
+            x = self.tern()
+            self.eat("op", ":")
+            y = self.tern()
+            return ("ite", c, x, y)
+        return c
 
     def lor(self):
         e = self.land()
@@ -133,7 +144,7 @@ class P:
             return ("lit", v)
         if k == "op" and v == "(":
             self.eat()
-            e = self.lor()
+            e = self.tern()
             self.eat("op", ")")
             return e
         if k == "id":
@@ -148,7 +159,7 @@ class P:
                 return ("ff",)
             if v == "wrap" and self.peek() == ("op", "("):   # a value cast to difference_type
                 self.eat()
-                e = self.lor()
+                e = self.tern()
                 self.eat("op", ")")
                 return ("wsub", e, ("lit", 0))
             raise TranslateError("unknown identifier %r in %r" % (v, self.text))
@@ -156,6 +167,8 @@ class P:
 
 
 def is_bool(e):
+    if e[0] == "ite":
+        return is_bool(e[2])
     return e[0] in ("cmp", "not", "and", "or", "atom", "tt", "ff")
 
 
@@ -183,6 +196,12 @@ def check_types(e):
         if not (is_bool(e[1]) and is_bool(e[2])):
             raise TranslateError("&&/|| on an integer")
         check_types(e[1]); check_types(e[2])
+    elif k == "ite":
+        if not is_bool(e[1]):
+            raise TranslateError("condition of ?: is an integer")
+        if is_bool(e[2]) != is_bool(e[3]):
+            raise TranslateError("branches of ?: of different sorts")
+        check_types(e[1]); check_types(e[2]); check_types(e[3])
 
 
 def ev(e, env):
@@ -215,6 +234,8 @@ def ev(e, env):
         return ev(e[1], env) and ev(e[2], env)
     if k == "or":
         return ev(e[1], env) or ev(e[2], env)
+    if k == "ite":
+        return ev(e[2], env) if ev(e[1], env) else ev(e[3], env)
     if k == "cmp":
         x, y = ev(e[2], env), ev(e[3], env)
         return {"==": x == y, "!=": x != y, "<": x < y, "<=": x <= y, ">": x > y, ">=": x >= y}[e[1]]
@@ -231,8 +252,20 @@ def has_wsub(e):
     return e[0] == "wsub" or any(isinstance(x, tuple) and has_wsub(x) for x in e[1:])
 
 
+def literals(e):
+    if e[0] == "lit":
+        return {e[1]}
+    res = set()
+    for x in e[1:]:
+        if isinstance(x, tuple):
+            res |= literals(x)
+    return res
+
+
 def equivalent(e1, e2):
-    for a, b, c in itertools.product(GRID_I, repeat=3):
+    # the grid follows the literals of both expressions (a threshold `a < 100 ? .. : ..` must not hide between grid points)
+    extra = sorted(v for l in literals(e1) | literals(e2) for v in (l - 1, l, l + 1, -l) if v not in GRID_I)[:10]
+    for a, b, c in itertools.product(GRID_I + tuple(extra), repeat=3):
         for p, q, r in itertools.product((False, True), repeat=3):
             env = dict(a=a, b=b, c=c, p=p, q=q, r=r)
             if ev(e1, env) != ev(e2, env):
@@ -268,6 +301,10 @@ def lean(e):
         return "(.%s %s)" % (k, lean(e[1]))
     if k == "cmp":
         return "(.cmp %s %s %s)" % (CMPL[e[1]], lean(e[2]), lean(e[3]))
+    if k == "ite":
+        if not is_bool(e):
+            raise TranslateError("an integer valued ?: that differs from the canonical form cannot be emitted (type E has no conditional)")
+        return "(.or (.and %s %s) (.and (.not %s) %s))" % (lean(e[1]), lean(e[2]), lean(e[1]), lean(e[3]))
     raise TranslateError("bad node %r" % (e,))
 
 
@@ -316,6 +353,260 @@ def subst(text, table):
     return text
 
 
+# ------------------------------------------------------------------------------------------------
+# normalisation of function bodies (round five): the readers below see every body
+#   * without `this->` / `(*this).`,
+#   * with the `const` locals that are initialised once from a side-effect free expression inlined at their uses
+#     (so atoms are recognised by the expressions they stand for, never by the names of locals),
+#   * as ONE value: guard clauses, if/else chains (with or without braces) and conditional expressions are all read
+#     into the same tree ("ite", condition, value, value); compile-time conditions select the branch pieces, run-time
+#     conditions become `c ? x : y` of the expression language.
+# Anything else (loops, a statement with an effect on the way to a return, a local that is modified, a call of an unknown
+# function in an initialiser) is NOT normalised and the reader fails loudly on it.
+# ------------------------------------------------------------------------------------------------
+CPP_KEYWORDS = {"return", "else", "using", "typedef", "throw", "delete", "new", "goto", "case", "if", "for", "while", "do", "switch",
+                "const", "constexpr", "static", "typename", "auto", "this", "not", "and", "or", "true", "false", "static_cast", "operator"}
+# calls that may occur in the initialiser of an inlined local: const primitives of the iterators / ranges and value casts
+PURE_CALLS = {"distanceTo", "equals", "dereference", "elementAt", "baseIterator", "derived", "size", "empty", "begin", "end", "contains",
+              "D", "D1", "D2", "DifferenceType", "difference_type", "size_type", "value_type", "SizeType", "unsigned_type",
+              "IntegralRangeIterator", "iterator", "is_convertible", "is_convertible_v", "models"}
+MUTATION = re.compile(r"\+\+|--|(?<![=!<>+\-*/%&|^])=(?!=)|[+\-*/%&|^]=|<<=|>>=")
+DECL = re.compile(r"^\s*(?P<q1>(?:static\s+)?(?:constexpr\s+)?(?:const\s+)?)(?:typename\s+)?"
+                  r"(?P<type>(?:[A-Za-z_]\w*\s*::\s*)*[A-Za-z_]\w*(?:\s*<(?:[^<>]|<[^<>]*>)*>)?(?:\s*::\s*\w+)*)\s*"
+                  r"(?P<q2>(?:const\b\s*)?)(?P<ref>&?)\s*(?P<name>[A-Za-z_]\w*)\s*"
+                  r"(?:=(?!=)\s*(?P<i1>.+)|\(\s*(?P<i2>.+)\)|\{\s*(?P<i3>.+)\})\s*$", re.S)
+
+
+def match_close(s, i, o, c):
+    depth = 0
+    for j in range(i, len(s)):
+        if s[j] == o:
+            depth += 1
+        elif s[j] == c:
+            depth -= 1
+            if depth == 0:
+                return j
+    raise TranslateError("unbalanced %s%s in %r" % (o, c, s[i:i + 40]))
+
+
+def top_index(s, ch, start=0):
+    """index of the first `ch` outside (), [], {} at or after start; -1 if none"""
+    depth = 0
+    for j in range(start, len(s)):
+        x = s[j]
+        if x in "([{":
+            depth += 1
+        elif x in ")]}":
+            depth -= 1
+        elif x == ch and depth == 0:
+            return j
+    return -1
+
+
+DECL_HEAD = re.compile(r"^\s*(?:static\s+)?(?:constexpr\s+)?(?:const\s+)?(?:typename\s+)?"
+                       r"(?P<type>(?:[A-Za-z_]\w*\s*::\s*)*[A-Za-z_]\w*(?:\s*<(?:[^<>]|<[^<>]*>)*>)?(?:\s*::\s*\w+)*)\s*"
+                       r"(?:const\b\s*)?[&*]?\s*[A-Za-z_]\w*\s*$")
+
+
+def has_mutation(text):
+    """++, --, assignments; the `=` of a declaration with initialiser does not count"""
+    for m in MUTATION.finditer(text):
+        if m.group(0) == "=":
+            start = max(text.rfind(c, 0, m.start()) for c in ";{}") + 1
+            h = DECL_HEAD.match(text[start:m.start()])
+            if h and h.group("type").split("::")[-1].strip() not in CPP_KEYWORDS - {"auto"}:
+                continue
+        return True
+    return False
+
+
+def is_primary(e):
+    """e is an identifier / member access / one call or cast: can be substituted without parentheses"""
+    e = e.strip()
+    if re.fullmatch(r"[\w\s.:]+(?:->[\w\s.:]+)*", e):
+        return True
+    if e.endswith(")"):
+        depth = 0
+        for j in range(len(e) - 1, -1, -1):
+            if e[j] == ")":
+                depth += 1
+            elif e[j] == "(":
+                depth -= 1
+                if depth == 0:
+                    return re.fullmatch(r"[\w\s:.]+(?:<(?:[^<>()]|<[^<>]*>)*>)?\s*", e[:j]) is not None
+    return False
+
+
+def strip_this(body):
+    body = re.sub(r"\bthis\s*->\s*(?!operator\b)", "", body)
+    return re.sub(r"\(\s*\*\s*this\s*\)\s*\.\s*(?!operator\b)", "", body)
+
+
+def pure_expr(e):
+    if MUTATION.search(e) or re.search(r"\b(?:new|delete|throw)\b", e):
+        return False
+    t = e
+    prev = None
+    while prev != t:
+        prev = t
+        t = CAST.sub("(", t)
+    for m in re.finditer(r"([A-Za-z_]\w*)\s*(?:<(?:[^<>()]|<[^<>]*>)*>)?\s*\(", t):
+        if m.group(1) not in PURE_CALLS:
+            return False
+    return True
+
+
+def inline_locals(body):
+    """inline `const T x = e;`, `const T& x = e;`, `const auto x(e);` ... at the uses of x (see the section comment)"""
+    out, rest = "", body
+    while True:
+        i = top_index(rest, ";")
+        if i < 0:
+            return out + rest
+        stmt, tail = rest[:i], rest[i + 1:]
+        m = DECL.match(stmt)
+        ok = False
+        if m and (m.group("q1").find("const") >= 0 or m.group("q2")) and m.group("type").split("::")[-1].strip() not in CPP_KEYWORDS - {"auto"}:
+            name, init = m.group("name"), (m.group("i1") or m.group("i2") or m.group("i3")).strip()
+            if name not in CPP_KEYWORDS and pure_expr(init):
+                ids = set(re.findall(r"[A-Za-z_]\w*", init)) - CPP_KEYWORDS
+                calls = re.search(r"[A-Za-z_]\w*\s*\(", CAST.sub("(", init)) or "this" in re.findall(r"\w+", init)
+                if calls:
+                    touched = has_mutation(tail)
+                else:
+                    touched = any(re.search(r"(?:\+\+|--)\s*(?:\w+\s*(?:\.|->)\s*)?%s\b|\b%s\s*(?:\+\+|--|[+\-*/%%&|^]?=(?!=)|<<=|>>=)" % (x, x), tail)
+                                  for x in ids)
+                if not touched:
+                    ty = m.group("type").strip()
+                    by_value_of_named_type = not m.group("ref") and ty != "auto"
+                    repl = ("static_cast<%s>(%s)" % (ty, init)) if by_value_of_named_type else init if is_primary(init) else "(%s)" % init
+                    rest = re.sub(r"(?<![\w.])(?<!->)%s\b" % re.escape(name), lambda _m: repl, tail)
+                    ok = True
+        if not ok:
+            out += stmt + ";"
+            rest = tail
+            # compound statements are left as they are: stop looking for declarations behind the first of them
+            if re.match(r"\s*(?:if|for|while|do|switch|return)\b", stmt) or "{" in stmt:
+                return out + rest
+
+
+def fbody(src, pos):
+    """normalised body of the function whose opening brace is at/after pos"""
+    return inline_locals(strip_this(body_after(src, pos)))
+
+
+def parse_stmt(s):
+    s = s.lstrip()
+    if s.startswith("{"):
+        j = match_close(s, 0, "{", "}")
+        return ("block", parse_stmts(inline_locals(s[1:j]))), s[j + 1:]   # locals of an inner block: same rule, scope = the block
+    m = re.match(r"if\b\s*(?:constexpr\b)?\s*\(", s)
+    if m:
+        j = match_close(s, m.end() - 1, "(", ")")
+        cond = s[m.end():j].strip()
+        then, rest = parse_stmt(s[j + 1:])
+        m2 = re.match(r"\s*else\b", rest)
+        if m2:
+            els, rest = parse_stmt(rest[m2.end():])
+            return ("if", cond, then, els), rest
+        return ("if", cond, then, None), rest
+    i = top_index(s, ";")
+    if i < 0:
+        raise TranslateError("statement without ';': %r" % s[:40])
+    text, rest = s[:i].strip(), s[i + 1:]
+    if text == "" or re.match(r"(?:assert|static_assert|DUNE_ASSERT_BOUNDS)\s*\(", text) or re.match(r"(?:using|typedef)\b", text):
+        return None, rest
+    m = re.match(r"return\b(.*)$", text, re.S)
+    if m:
+        return ("ret", m.group(1).strip()), rest
+    return ("other", text), rest
+
+
+def parse_stmts(s):
+    out = []
+    while s.strip():
+        st, s = parse_stmt(s)
+        if st is not None:
+            out.append(st)
+    return out
+
+
+def strip_parens(e):
+    e = e.strip()
+    while e.startswith("(") and match_close(e, 0, "(", ")") == len(e) - 1:
+        e = e[1:-1].strip()
+    return e
+
+
+def split_ternary(e):
+    """top-level `c ? x : y` of a C++ expression -> ("ite", c, x, y) (recursively), anything else -> the string"""
+    t = strip_parens(e)
+    q = top_index(t, "?")
+    if q < 0:
+        return e.strip()
+    depth, nest, j = 0, 0, q + 1
+    while j < len(t):
+        x = t[j]
+        if x in "([{":
+            depth += 1
+        elif x in ")]}":
+            depth -= 1
+        elif depth == 0 and x == "?":
+            nest += 1
+        elif depth == 0 and x == ":":
+            if t[j:j + 2] == "::":
+                j += 2
+                continue
+            if j > 0 and t[j - 1] == ":":
+                j += 1
+                continue
+            if nest == 0:
+                return ("ite", t[:q].strip(), split_ternary(t[q + 1:j]), split_ternary(t[j + 1:]))
+            nest -= 1
+        j += 1
+    raise TranslateError("conditional expression not understood: %r" % e[:60])
+
+
+def seq_value(seq):
+    if not seq:
+        raise TranslateError("control reaches the end of the body without a return")
+    st = seq[0]
+    if st[0] == "ret":
+        return split_ternary(st[1])
+    if st[0] == "block":
+        return seq_value(st[1] + seq[1:])
+    if st[0] == "if":
+        return ("ite", st[1], seq_value([st[2]] + seq[1:]), seq_value(([st[3]] if st[3] else []) + seq[1:]))
+    raise TranslateError("statement with an effect before the return: %r" % st[1][:60])
+
+
+def body_value(body):
+    """the value a (normalised) body returns: a C++ expression string or ("ite", cond, value, value)"""
+    return seq_value(parse_stmts(body))
+
+
+def to_expr(v):
+    if isinstance(v, str):
+        return v
+    return "((%s) ? (%s) : (%s))" % (v[1], to_expr(v[2]), to_expr(v[3]))
+
+
+def static_branches(v, cond_rx):
+    """v = body value; if its top is a conditional on the compile-time condition cond_rx (possibly negated) return
+    (value if true, value if false) as expression strings, else None"""
+    if isinstance(v, str):
+        return None
+    c = strip_parens(v[1])
+    neg = False
+    m = re.match(r"(?:!|not\b)\s*(.*)$", c, re.S)
+    if m:
+        neg, c = True, strip_parens(m.group(1))
+    if not re.match(cond_rx + r"\s*$", c):
+        return None
+    x, y = to_expr(v[2]), to_expr(v[3])
+    return (y, x) if neg else (x, y)
+
+
 class Gen:
     def __init__(self):
         self.defs = []       # (name, type, lean text, doc, status)
@@ -342,7 +633,12 @@ class Gen:
                 self.unparsed.append("%s: %s" % (name, str(ex)[:160]))
         if good < expect and len(occurrences) < expect:
             self.unparsed.append("%s: expected %d occurrences, found %d" % (name, expect, len(occurrences)))
-        self.defs.append((name, "B" if is_bool(cexpr) else "E", lean(chosen), doc, status))
+        try:
+            body = lean(chosen)
+        except TranslateError as ex:
+            self.unparsed.append("%s: %s" % (name, str(ex)[:160]))
+            body, status = lean(cexpr), "canonical"
+        self.defs.append((name, "B" if is_bool(cexpr) else "E", body, doc, status))
 
     def text(self):
         out = ["-- GENERATED by tools/translators/tr_c16.py from dune/common/{iteratorfacades,genericiterator,densevector,"
@@ -378,15 +674,19 @@ def safe(f):
 # ------------------------------------------------------------------------------------------------
 # the pieces
 # ------------------------------------------------------------------------------------------------
+_DC1 = r"static_cast\s*<\s*(?:const\s+T1|T1\s+const)\s*&\s*>\s*\(\s*lhs\s*\)"
+_DC2 = r"static_cast\s*<\s*(?:const\s+T2|T2\s+const)\s*&\s*>\s*\(\s*rhs\s*\)"
 LEG_SUBST = [
-    (r"static_cast\s*<\s*const\s+T1\s*&\s*>\s*\(\s*lhs\s*\)", "lhs"),
-    (r"static_cast\s*<\s*const\s+T2\s*&\s*>\s*\(\s*rhs\s*\)", "rhs"),
+    (_DC1, "lhs"),
+    (_DC2, "rhs"),
     (r"lhs\s*\.\s*distanceTo\s*\(\s*rhs\s*\)", "a"),
     (r"rhs\s*\.\s*distanceTo\s*\(\s*lhs\s*\)", "b"),
     (r"lhs\s*\.\s*equals\s*\(\s*rhs\s*\)", "p"),
     (r"rhs\s*\.\s*equals\s*\(\s*lhs\s*\)", "q"),
     (r"\(\s*lhs\s*==\s*rhs\s*\)", "r"),
+    (r"\boperator\s*==\s*\(\s*lhs\s*,\s*rhs\s*\)", "r"),
 ]
+CONV_RX = r"std\s*::\s*is_convertible(?:_v)?\s*<\s*T2\s*,\s*T1\s*>\s*(?:::\s*value|\{\s*\}|\(\s*\))?"
 OPNAME = {"==": "eq", "!=": "ne", "<": "lt", "<=": "le", ">": "gt", ">=": "ge", "-": "diff"}
 
 
@@ -397,18 +697,18 @@ def legacy_free_ops(src, facade):
                     r"\s*const\s+%sIteratorFacade\s*<\s*T2\s*,\s*V2\s*,\s*R2\s*,\s*D\s*>\s*&\s*rhs\s*\)" % (facade, facade))
     for m in rx.finditer(src):
         op = OPNAME[m.group(1)]
-        body = body_after(src, m.end())
         head = src[max(0, src.rfind("template", 0, m.start())):m.start()]
-        nb = subst(body, LEG_SUBST)
-        mm = re.search(r"if\s*(?:constexpr)?\s*\(\s*std::is_convertible(?:_v)?\s*<\s*T2\s*,\s*T1\s*>\s*(?:::value)?\s*\)\s*return([^;]*);\s*else\s*return([^;]*);", nb)
-        if mm:
-            res.setdefault((op, "conv"), []).append(mm.group(1))
-            res.setdefault((op, "else"), []).append(mm.group(2))
+        try:
+            v = body_value(subst(fbody(src, m.end()), LEG_SUBST))
+        except TranslateError as ex:
+            res.setdefault((op, "conv"), []).append(TranslateError("body of %s operator%s not understood: %s" % (facade, m.group(1), ex)))
             continue
-        r = returns(nb)
-        if len(r) != 1:
-            res.setdefault((op, "conv"), []).append(TranslateError("body of %s operator%s not understood" % (facade, m.group(1))))
+        br = static_branches(v, CONV_RX)
+        if br:
+            res.setdefault((op, "conv"), []).append(drop_casts(br[0]))
+            res.setdefault((op, "else"), []).append(drop_casts(br[1]))
             continue
+        r = [drop_casts(to_expr(v))]
         # single-branch overloads: which branch is decided by the enable_if in the head
         h = re.sub(r"\s+", "", head)
         if "is_convertible<T1,T2>::value&&!std::is_convertible<T2,T1>::value" in h:
@@ -425,7 +725,7 @@ def member_arg(cls, rx_header, call_rx):
     m = re.search(rx_header, cls)
     if not m:
         raise TranslateError("member not found: %s" % rx_header)
-    body = body_after(cls, m.end() - 1)
+    body = fbody(cls, m.end() - 1)
     c = re.search(call_rx, body)
     if not c:
         raise TranslateError("call not found in: %s" % body[:80])
@@ -452,9 +752,14 @@ def translate(repo):
             found = {}
         for op in ops:
             for br in ("conv", "else"):
+                occ = found.get((op, br), [])
+                eqs = found.get(("eq", br), [])
+                if op != "eq" and pre != "bi" and len(eqs) == 1 and isinstance(eqs[0], str) and not re.search(r"\br\b", eqs[0]):
+                    # `lhs == rhs` inside another operator of the same facade IS operator== of the same branch
+                    occ = [re.sub(r"\br\b", lambda _m: "(%s)" % eqs[0], o) if isinstance(o, str) else o for o in occ]
                 G.piece("%s_%s_%s" % (pre, op, br),
                         "%sIteratorFacade operator %s, %s branch; %s" % (facade, op, "is_convertible<T2,T1>" if br == "conv" else "else", docv),
-                        canon_leg[(op, br)], found.get((op, br), []), 1)
+                        canon_leg[(op, br)], occ, 1)
     found = safe(lambda: legacy_free_ops(fac, "Bidirectional"))
     found = {} if isinstance(found, list) else found
     G.piece("bi_ne", "BidirectionalIteratorFacade operator!=; " + docv, "!r",
@@ -462,13 +767,32 @@ def translate(repo):
 
     ra = safe(lambda: [class_text(fac, r"class\s+RandomAccessIteratorFacade\s*\{")])
     ra_cls = ra[0] if isinstance(ra[0], str) else ""
-    for name, hdr, call, canon, doc in (
-            ("ra_addAssign_arg", r"operator\s*\+=\s*\(\s*DifferenceType\s+n\s*\)\s*\{", r"advance\s*\(([^;]*)\)\s*;", "a", "it += n calls advance(.)"),
-            ("ra_subAssign_arg", r"operator\s*-=\s*\(\s*DifferenceType\s+n\s*\)\s*\{", r"advance\s*\(([^;]*)\)\s*;", "-a", "it -= n calls advance(.)"),
-            ("ra_plus_arg", r"operator\s*\+\s*\(\s*DifferenceType\s+n\s*\)\s*const\s*\{", r"tmp\s*\.\s*advance\s*\(([^;]*)\)\s*;", "a", "it + n calls tmp.advance(.)"),
-            ("ra_minus_arg", r"operator\s*-\s*\(\s*DifferenceType\s+n\s*\)\s*const\s*\{", r"tmp\s*\.\s*advance\s*\(([^;]*)\)\s*;", "-a", "it - n calls tmp.advance(.)"),
-            ("ra_index_arg", r"operator\s*\[\s*\]\s*\(\s*DifferenceType\s+n\s*\)\s*const\s*\{", r"elementAt\s*\(([^;]*)\)\s*;", "a", "it[n] calls elementAt(.)")):
-        G.piece(name, "RandomAccessIteratorFacade: %s; a = n" % doc, canon, safe(lambda: member_arg(ra_cls, hdr, call)), 1)
+    # the four stepping members hand ONE argument to advance(): either directly (`advance(x)` on the object or on the
+    # copy, whatever the copy is called) or through the sibling compound assignment (`tmp += x`, `*this += x`,
+    # `operator-=(x)`), whose own argument expression is then composed with x
+    ra_hdr = {"addAssign": r"operator\s*\+=\s*\(\s*DifferenceType\s+n\s*\)\s*\{", "subAssign": r"operator\s*-=\s*\(\s*DifferenceType\s+n\s*\)\s*\{",
+              "plus": r"operator\s*\+\s*\(\s*DifferenceType\s+n\s*\)\s*const\s*\{", "minus": r"operator\s*-\s*\(\s*DifferenceType\s+n\s*\)\s*const\s*\{"}
+
+    def ra_member_text(kind, stack=()):
+        if kind in stack:
+            raise TranslateError("RandomAccessIteratorFacade %s is defined through itself" % kind)
+        m = re.search(ra_hdr[kind], ra_cls)
+        if not m:
+            raise TranslateError("member not found: %s" % ra_hdr[kind])
+        body = fbody(ra_cls, m.end() - 1)
+        arg = lambda t: re.sub(r"\bn\b", "a", drop_casts(t))
+        compose = lambda op, t: re.sub(r"\ba\b", lambda _m: "(%s)" % arg(t), ra_member_text("addAssign" if op == "+=" else "subAssign", stack + (kind,)))
+        cands = [arg(c.group(1)) for c in re.finditer(r"\badvance\s*\(([^;]*)\)\s*;", body)]
+        cands += [compose(c.group(1), c.group(2)) for c in re.finditer(r"(?:\*\s*this|\(\s*\*\s*this\s*\)|\b[A-Za-z_]\w*)\s*(\+=|-=)\s*([^;]*);", body)]
+        cands += [compose(c.group(1), c.group(2)) for c in re.finditer(r"\boperator\s*(\+=|-=)\s*\(([^;]*)\)\s*;", body)]
+        if len(cands) != 1:
+            raise TranslateError("%d stepping calls in: %s" % (len(cands), body[:80]))
+        return cands[0]
+    for name, kind, canon, doc in (("ra_addAssign_arg", "addAssign", "a", "it += n calls advance(.)"), ("ra_subAssign_arg", "subAssign", "-a", "it -= n calls advance(.)"),
+                                   ("ra_plus_arg", "plus", "a", "it + n calls tmp.advance(.)"), ("ra_minus_arg", "minus", "-a", "it - n calls tmp.advance(.)")):
+        G.piece(name, "RandomAccessIteratorFacade: %s; a = n" % doc, canon, safe(lambda: [ra_member_text(kind)]), 1)
+    G.piece("ra_index_arg", "RandomAccessIteratorFacade: it[n] calls elementAt(.); a = n", "a",
+            safe(lambda: member_arg(ra_cls, r"operator\s*\[\s*\]\s*\(\s*DifferenceType\s+n\s*\)\s*const\s*\{", r"elementAt\s*\(([^;]*)\)\s*;")), 1)
 
     # ---- the new IteratorFacade ---------------------------------------------------------------
     nf_subst = [(r"\(\s*derivedIt1\s*-\s*derivedIt2\s*\)", "a"), (r"\(\s*derivedIt2\s*-\s*derivedIt1\s*\)", "b"),
@@ -480,25 +804,31 @@ def translate(repo):
     nf_base_subst = [(r"\(\s*%s\s*<\s*%s\s*\)" % (bacc % 1, bacc % 2), "p"), (r"\(\s*%s\s*<\s*%s\s*\)" % (bacc % 2, bacc % 1), "q"),
                      (r"%s\s*<\s*%s" % (bacc % 1, bacc % 2), "p"), (r"%s\s*<\s*%s" % (bacc % 2, bacc % 1), "q"),
                      (r"%s\s*>\s*%s" % (bacc % 1, bacc % 2), "q"), (r"%s\s*>\s*%s" % (bacc % 2, bacc % 1), "p")]
-    nf_branch = re.compile(r"if\s+constexpr\s*\(\s*(?:Dune\s*::\s*)?models\s*<\s*Impl\s*::\s*Concepts\s*::\s*BaseIterLessOp\s*,\s*T1\s*,\s*T2\s*>\s*\(\s*\)\s*\)"
-                           r"\s*return([^;]*);\s*else\s*return([^;]*);\s*$")
+    MODELS_RX = r"(?:Dune\s*::\s*)?models\s*<\s*(?:(?:Dune\s*::\s*)?Impl\s*::\s*)?Concepts\s*::\s*BaseIterLessOp\s*,\s*T1\s*,\s*T2\s*>\s*\(\s*\)"
+    # the operands are recognised by what they are (IteratorFacadeAccess::derived(itK)), whatever the local is called
+    _der = r"(?:Dune\s*::\s*)?IteratorFacadeAccess\s*::\s*derived\s*\(\s*it%d\s*\)"
+    nf_atoms = [(_der % 1, "derivedIt1"), (_der % 2, "derivedIt2")]
+
+    def nf_value(pos):
+        return body_value(subst(fbody(fac, pos), nf_atoms))
 
     def nf_rel(sym, which):
         def occ():
             res = []
             rx = re.compile(r"operator\s*%s\s*\(\s*const\s+IteratorFacade\s*<\s*T1\s*,[^()]*>\s*&\s*it1\s*,\s*const\s+IteratorFacade\s*<\s*T2\s*,[^()]*>\s*&\s*it2\s*\)" % re.escape(sym))
             for m in rx.finditer(fac):
-                body = body_after(fac, m.end())
-                mm = nf_branch.search(body.strip())
-                r = returns(body)
-                if mm:
-                    res.append(subst(mm.group(1), nf_base_subst) if which == "base" else subst(drop_casts(mm.group(2)), nf_subst))
-                elif len(r) == 1 and which == "dist":
-                    res.append(subst(drop_casts(r[0]), nf_subst))
-                elif len(r) == 1:
-                    res.append(TranslateError("IteratorFacade operator%s does not compare the base iterators" % sym))
+                try:
+                    v = nf_value(m.end())
+                except TranslateError as ex:
+                    res.append(TranslateError("body of IteratorFacade operator%s not understood: %s" % (sym, ex)))
+                    continue
+                br = static_branches(v, MODELS_RX)
+                if br:
+                    res.append(subst(br[0], nf_base_subst) if which == "base" else subst(drop_casts(br[1]), nf_subst))
+                elif which == "dist":
+                    res.append(subst(drop_casts(to_expr(v)), nf_subst))
                 else:
-                    res.append(TranslateError("body of IteratorFacade operator%s not understood" % sym))
+                    res.append(TranslateError("IteratorFacade operator%s does not compare the base iterators" % sym))
             return res
         return safe(occ)
     for op, sym, canon, cbase in (("lt", "<", "a < 0", "p"), ("le", "<=", "a <= 0", "!q"), ("gt", ">", "a > 0", "q"), ("ge", ">=", "a >= 0", "!p")):
@@ -511,11 +841,10 @@ def translate(repo):
         res = []
         rx = re.compile(r"operator\s*!=\s*\(\s*const\s+IteratorFacade\s*<\s*T1\s*,[^()]*>\s*&\s*it1\s*,\s*const\s+IteratorFacade\s*<\s*T2\s*,[^()]*>\s*&\s*it2\s*\)")
         for m in rx.finditer(fac):
-            r = returns(body_after(fac, m.end()))
-            if len(r) != 1:
-                res.append(TranslateError("body of IteratorFacade operator!= not understood"))
-            else:
-                res.append(subst(drop_casts(r[0]), nf_subst))
+            try:
+                res.append(subst(drop_casts(to_expr(nf_value(m.end()))), nf_subst))
+            except TranslateError as ex:
+                res.append(TranslateError("body of IteratorFacade operator!= not understood: %s" % ex))
         return res
     G.piece("nf_ne", "IteratorFacade operator !=; atom a = (it1 == it2)", "!p", safe(nf_ne), 1)
     nfc = safe(lambda: [class_text(fac, r"class\s+IteratorFacade\s*\{")])
@@ -543,20 +872,22 @@ def translate(repo):
         def fn_returns(cls, rx):
             res = []
             for m in re.finditer(rx, cls):
-                r = returns(body_after(cls, m.end() - 1))
-                if not r:
-                    res.append(TranslateError("no return in %s" % rx))
-                else:
-                    res.append(subst(drop_casts(r[-1]), pos_subst))
+                try:
+                    res.append(subst(drop_casts(to_expr(body_value(fbody(cls, m.end() - 1)))), pos_subst))
+                except TranslateError as ex:
+                    res.append(TranslateError("%s: %s" % (rx[:14], ex)))
             return res
 
         def fn_stmt(cls, rx, stmt_rx, rename):
             res = []
             for m in re.finditer(rx, cls):
-                body = body_after(cls, m.end() - 1)
+                body = fbody(cls, m.end() - 1)
                 s = re.search(stmt_rx, body)
                 if not s:
                     res.append(TranslateError("statement not found in %s" % body[:60]))
+                    continue
+                if len(re.findall(r"(?<![\w.])(?<!->)position_\s*(?:\+\+|--|[+\-*/%&|^]?=(?!=))|(?:\+\+|--)\s*position_", body)) != 1:
+                    res.append(TranslateError("position_ is updated more than once in %s" % body[:60]))
                     continue
                 res.append(rename(s))
             return res
@@ -586,10 +917,14 @@ def translate(repo):
         def elem(cls, fname):
             res = []
             for m in re.finditer(r"\b%s\s*\([^()]*\)\s*const\s*\{" % fname, cls):
-                r = returns(body_after(cls, m.end() - 1))
-                if len(r) != 1:
-                    res.append(TranslateError("%s not understood" % fname))
+                try:
+                    v = body_value(fbody(cls, m.end() - 1))
+                except TranslateError as ex:
+                    v = ex
+                if not isinstance(v, str):
+                    res.append(TranslateError("%s not understood: %s" % (fname, v if isinstance(v, Exception) else "conditional")))
                     continue
+                r = [v]
                 am = re.search(r"(?:operator\s*\[\s*\]|elementAt)\s*\((.*)\)\s*$", r[0]) or re.search(r"\[(.*)\]\s*$", r[0])
                 if not am:
                     res.append(TranslateError("%s: index expression not found in %r" % (fname, r[0][:60])))
@@ -634,31 +969,97 @@ def translate(repo):
                   (r"(?:this\s*->\s*)?operator\s*-\s*\(\s*other\s*\)", "(a ~ b)"), (r"other\s*\.\s*operator\s*-\s*\(\s*\*\s*this\s*\)", "(b ~ a)"),
                   (r"static_cast\s*<\s*difference_type\s*>\s*\(", "wrap("), (r"\bdifference_type\s*\(", "wrap(")]
 
-    def ir_ret(rx, sub=ir_subst, machine=False):
+    # An operator written through a SIBLING operator of the class (`!(*this == other)`, `other < *this`,
+    # `operator<(other)`, `a + n` inside operator+(n, a) ...) is read by substituting the sibling's own (translated) body,
+    # operands exchanged where the call exchanges them; an operator that reaches itself this way is not understood.
+    THIS = r"(?:\(\s*\*\s*this\s*\)|\*\s*this)"
+    CMP_SYMS = ("==", "!=", "<=", ">=", "<", ">")
+    cmp_hdr = lambda sym: r"operator\s*%s\s*\(\s*const\s+IntegralRangeIterator\s*&\s*other\s*\)\s*const\s*(?:noexcept)?\s*\{" % re.escape(sym)
+
+    def swap_ab(t):
+        return re.sub(r"\b([ab])\b", lambda m: "b" if m.group(1) == "a" else "a", t)
+
+    def ir_cmp_text(sym, stack=()):
+        """body of comparison `sym` in the expression language over a = value_, b = other.value_"""
+        if sym in stack:
+            raise TranslateError("operator%s of IntegralRangeIterator is defined through itself" % sym)
+        ms = list(re.finditer(cmp_hdr(sym), ir_cls))
+        if len(ms) != 1:
+            raise TranslateError("operator%s of IntegralRangeIterator: %d definitions found" % (sym, len(ms)))
+        t = to_expr(body_value(fbody(ir_cls, ms[0].end() - 1)))
+        for s2 in CMP_SYMS:
+            o = re.escape(s2) + (r"(?![=<>])" if s2 in "<>" else "")
+            direct = lambda _m, s2=s2: "(%s)" % ir_cmp_text(s2, stack + (sym,))
+            swapped = lambda _m, s2=s2: "(%s)" % swap_ab(ir_cmp_text(s2, stack + (sym,)))
+            t = re.sub(THIS + r"\s*" + o + r"\s*other\b(?!\s*(?:[.\[(]|->))", direct, t)
+            t = re.sub(r"(?<![\w.])other\s*" + o + r"\s*" + THIS, swapped, t)
+            t = re.sub(r"(?<![\w.])other\s*\.\s*operator\s*" + o + r"\s*\(\s*" + THIS + r"\s*\)", swapped, t)
+            t = re.sub(r"(?<![\w.])operator\s*" + o + r"\s*\(\s*other\s*\)", direct, t)
+        t = subst(t, ir_machine)
+        return subst(drop_casts(t), ir_subst)
+
+    IT_A = r"(?<![\w.])a\b(?!\s*(?:[\w.\[(]|->))"
+    STEP = r"(n\b|-\s*n\b|\(\s*-\s*n\s*\))"
+    fr_hdr = {"plus": r"operator\s*\+\s*\(\s*const\s+IntegralRangeIterator\s*&\s*a\s*,\s*difference_type\s+n\s*\)\s*(?:noexcept)?\s*\{",
+              "nplus": r"operator\s*\+\s*\(\s*difference_type\s+n\s*,\s*const\s+IntegralRangeIterator\s*&\s*a\s*\)\s*(?:noexcept)?\s*\{",
+              "minus": r"operator\s*-\s*\(\s*const\s+IntegralRangeIterator\s*&\s*a\s*,\s*difference_type\s+n\s*\)\s*(?:noexcept)?\s*\{"}
+
+    def ir_friend_text(kind, stack=()):
+        """value of the iterator returned by the friend operator, over a = a.value_, b = n"""
+        if kind in stack:
+            raise TranslateError("friend operator (%s) of IntegralRangeIterator is defined through itself" % kind)
+        ms = list(re.finditer(fr_hdr[kind], ir_cls))
+        if len(ms) != 1:
+            raise TranslateError("friend operator (%s) of IntegralRangeIterator: %d definitions found" % (kind, len(ms)))
+        t = to_expr(body_value(fbody(ir_cls, ms[0].end() - 1)))
+
+        def call(k2, step):
+            body = ir_friend_text(k2, stack + (kind,))
+            return "(%s)" % (body if step.strip() == "n" else re.sub(r"\bb\b", "(-b)", body))
+        t = re.sub(IT_A + r"\s*\+\s*" + STEP, lambda m: call("plus", m.group(1)), t)
+        t = re.sub(STEP + r"\s*\+\s*" + IT_A, lambda m: call("nplus", m.group(1)), t)
+        t = re.sub(IT_A + r"\s*-\s*" + STEP, lambda m: call("minus", m.group(1)), t)
+        e = re.sub(r"^\s*IntegralRangeIterator\s*[({](.*)[)}]\s*$", r"\1", drop_casts(t))
+        return subst(e, ir_subst)
+
+    def ir_ret(rx, sub=ir_subst):
         def f():
             res = []
             for m in re.finditer(rx, ir_cls):
-                r = returns(body_after(ir_cls, m.end() - 1))
-                if len(r) != 1:
-                    res.append(TranslateError("body not understood: %s" % rx))
-                else:
-                    t = subst(r[0], ir_machine) if machine else r[0]
+                try:
+                    t = to_expr(body_value(fbody(ir_cls, m.end() - 1)))
                     e = re.sub(r"^\s*IntegralRangeIterator\s*\((.*)\)\s*$", r"\1", drop_casts(t))
                     res.append(subst(e, sub))
+                except TranslateError as ex:
+                    res.append(TranslateError("body not understood: %s: %s" % (rx[:24], ex)))
             return res
         return safe(f)
     for op, sym in (("eq", "=="), ("ne", "!="), ("lt", "<"), ("le", "<="), ("gt", ">"), ("ge", ">=")):
         G.piece("ir_" + op, "IntegralRangeIterator operator%s; a = value_, b = other.value_" % sym, "a %s b" % sym,
-                ir_ret(r"operator\s*%s\s*\(\s*const\s+IntegralRangeIterator\s*&\s*other\s*\)\s*const\s*(?:noexcept)?\s*\{" % re.escape(sym), machine=True), 1)
+                safe(lambda: [ir_cmp_text(sym)]), 1)
     G.piece("ir_deref", "IntegralRangeIterator operator*; a = value_", "a", ir_ret(r"operator\s*\*\s*\(\s*\)\s*const\s*(?:noexcept)?\s*\{"), 1)
-    G.piece("ir_index", "IntegralRangeIterator operator[](n); a = value_, b = n", "a + b",
-            ir_ret(r"operator\s*\[\s*\]\s*\(\s*difference_type\s+n\s*\)\s*const\s*(?:noexcept)?\s*\{"), 1)
+    def ir_index():
+        m = re.search(r"operator\s*\[\s*\]\s*\(\s*difference_type\s+n\s*\)\s*const\s*(?:noexcept)?\s*\{", ir_cls)
+        if not m:
+            raise TranslateError("operator[] of IntegralRangeIterator not found")
+        t = to_expr(body_value(fbody(ir_cls, m.end() - 1)))
+
+        def through_plus(kind):
+            # *(*this + n): operator* of the iterator operator+ returns -- compose the two translated bodies
+            d = ir_ret(r"operator\s*\*\s*\(\s*\)\s*const\s*(?:noexcept)?\s*\{")
+            if len(d) != 1 or not isinstance(d[0], str):
+                raise TranslateError("operator* of IntegralRangeIterator not understood")
+            return "(%s)" % re.sub(r"\ba\b", lambda _m: "(%s)" % ir_friend_text(kind), d[0])
+        t = re.sub(r"\*\s*\(\s*" + THIS + r"\s*\+\s*n\s*\)", lambda _m: through_plus("plus"), t)
+        t = re.sub(r"\*\s*\(\s*n\s*\+\s*" + THIS + r"\s*\)", lambda _m: through_plus("nplus"), t)
+        return [subst(drop_casts(t), ir_subst)]
+    G.piece("ir_index", "IntegralRangeIterator operator[](n); a = value_, b = n", "a + b", safe(ir_index), 1)
     G.piece("ir_plus", "operator+(a, n): value of the result; a = a.value_, b = n", "a + b",
-            ir_ret(r"operator\s*\+\s*\(\s*const\s+IntegralRangeIterator\s*&\s*a\s*,\s*difference_type\s+n\s*\)\s*(?:noexcept)?\s*\{"), 1)
+            safe(lambda: [ir_friend_text("plus")]), 1)
     G.piece("ir_nplus", "operator+(n, a): value of the result; a = a.value_, b = n", "a + b",
-            ir_ret(r"operator\s*\+\s*\(\s*difference_type\s+n\s*,\s*const\s+IntegralRangeIterator\s*&\s*a\s*\)\s*(?:noexcept)?\s*\{"), 1)
+            safe(lambda: [ir_friend_text("nplus")]), 1)
     G.piece("ir_minus", "operator-(a, n): value of the result; a = a.value_, b = n", "a - b",
-            ir_ret(r"operator\s*-\s*\(\s*const\s+IntegralRangeIterator\s*&\s*a\s*,\s*difference_type\s+n\s*\)\s*(?:noexcept)?\s*\{"), 1)
+            safe(lambda: [ir_friend_text("minus")]), 1)
     G.piece("ir_diff", "operator-(other): the difference before it is reduced to difference_type; a = value_, b = other.value_", "a - b",
             ir_ret(r"operator\s*-\s*\(\s*const\s+IntegralRangeIterator\s*&\s*other\s*\)\s*const\s*(?:noexcept)?\s*\{"), 1)
 
@@ -667,7 +1068,9 @@ def translate(repo):
             m = re.search(rx, ir_cls)
             if not m:
                 raise TranslateError("member not found: %s" % rx)
-            body = body_after(ir_cls, m.end() - 1)
+            body = fbody(ir_cls, m.end() - 1)
+            if len(re.findall(r"(?<![\w.])(?<!->)value_\s*(?:\+\+|--|[+\-*/%&|^]?=(?!=))|(?:\+\+|--)\s*value_", body)) != 1:
+                raise TranslateError("value_ is updated more than once in %s" % body[:60])
             for frx, mk in forms:
                 s = re.search(frx, body)
                 if s:
@@ -678,12 +1081,14 @@ def translate(repo):
             ir_stmt(r"operator\s*\+\+\s*\(\s*\)\s*(?:noexcept)?\s*\{", [(r"\+\+\s*value_\s*;|value_\s*\+\+\s*;", lambda s: "a + 1"),
                                                                       (r"value_\s*\+=\s*([^;]*);", lambda s: "a + (%s)" % s.group(1)),
                                                                       (r"value_\s*-=\s*([^;]*);", lambda s: "a - (%s)" % s.group(1)),
-                                                                      (r"--\s*value_\s*;|value_\s*--\s*;", lambda s: "a - 1")]), 1)
+                                                                      (r"--\s*value_\s*;|value_\s*--\s*;", lambda s: "a - 1"),
+                                                                      (r"value_\s*=(?!=)\s*([^;]*);", lambda s: subst(drop_casts(s.group(1)), ir_subst))]), 1)
     G.piece("ir_dec", "IntegralRangeIterator operator--: new value_; a = value_", "a - 1",
             ir_stmt(r"operator\s*--\s*\(\s*\)\s*(?:noexcept)?\s*\{", [(r"--\s*value_\s*;|value_\s*--\s*;", lambda s: "a - 1"),
                                                                      (r"value_\s*-=\s*([^;]*);", lambda s: "a - (%s)" % s.group(1)),
                                                                      (r"value_\s*\+=\s*([^;]*);", lambda s: "a + (%s)" % s.group(1)),
-                                                                     (r"\+\+\s*value_\s*;|value_\s*\+\+\s*;", lambda s: "a + 1")]), 1)
+                                                                     (r"\+\+\s*value_\s*;|value_\s*\+\+\s*;", lambda s: "a + 1"),
+                                                                     (r"value_\s*=(?!=)\s*([^;]*);", lambda s: subst(drop_casts(s.group(1)), ir_subst))]), 1)
     nb = lambda t: re.sub(r"\bn\b", "b", t)
     G.piece("ir_addAssign", "IntegralRangeIterator operator+=(n): new value_; a = value_, b = n", "a + b",
             ir_stmt(r"operator\s*\+=\s*\(\s*difference_type\s+n\s*\)\s*(?:noexcept)?\s*\{",
@@ -697,19 +1102,31 @@ def translate(repo):
     def range_pieces(prefix, what, cls, frm, to):
         rs = [(r"\b%s\b" % frm, "a"), (r"\b%s\b" % to, "b"), (r"\bindex\b", "c"), (r"\bi\b", "c")]
 
-        def ret(rx, nth=0):
-            def f():
-                ms = list(re.finditer(rx, cls))
-                if len(ms) <= nth:
-                    raise TranslateError("member not found: %s" % rx)
-                m = ms[nth]
-                r = returns(body_after(cls, m.end() - 1))
-                if len(r) != 1:
-                    raise TranslateError("body not understood: %s" % rx)
-                e = re.sub(r"^\s*iterator\s*\((.*)\)\s*$", r"\1", drop_casts(r[0]))
-                return [subst(e, rs)]
-            return safe(f)
         ne = r"\s*(?:const)?\s*(?:noexcept)?\s*\{"
+
+        def member_text(rx, nth=0, stack=()):
+            """value of a member in the expression language; calls of the sibling members size() / empty() on the
+            same object are replaced by their own bodies"""
+            if rx in stack:
+                raise TranslateError("member is defined through itself: %s" % rx[:20])
+            ms = list(re.finditer(rx, cls))
+            if len(ms) <= nth:
+                raise TranslateError("member not found: %s" % rx)
+            t = to_expr(body_value(fbody(cls, ms[nth].end() - 1)))
+            for nm in ("size", "empty"):
+                def sib(_m, nm=nm):
+                    if prefix == "rg":
+                        return "(%s)" % member_text(r"\b%s\s*\(\s*\)" % nm + ne, 0, stack + (rx,))
+                    r = static_member(cls, nm, rs)
+                    if isinstance(r[0], Exception):
+                        raise r[0]
+                    return "(%s)" % r[0]
+                t = re.sub(r"(?<![\w.])(?<!->)%s\s*\(\s*\)" % nm, sib, t)
+            e = re.sub(r"^\s*iterator\s*[({](.*)[)}]\s*$", r"\1", drop_casts(t))
+            return subst(e, rs)
+
+        def ret(rx, nth=0):
+            return safe(lambda: [member_text(rx, nth)])
         G.piece(prefix + "_begin", "%s::begin(): value of the iterator; a = from, b = to" % what, "a", ret(r"\bbegin\s*\(\s*\)" + ne), 1)
         G.piece(prefix + "_end", "%s::end(): value of the iterator; a = from, b = to" % what, "b", ret(r"\bend\s*\(\s*\)" + ne), 1)
         G.piece(prefix + "_empty", "%s::empty(); a = from, b = to" % what, "a == b", ret(r"\bempty\s*\(\s*\)" + ne)
